@@ -65,7 +65,8 @@ structure TSt where
 deriving Repr, Inhabited
 
 def TSt.emit (s : TSt) (e : TEv) : TSt := { s with log := e :: s.log }
-def TSt.task (s : TSt) (t : Nat) : Task := s.tasks.getD t { coro := 0 }
+/-- task `t`; an id that was never handed out reads as a finished, delivered task (no operation acts on it) -/
+def TSt.task (s : TSt) (t : Nat) : Task := s.tasks.getD t { coro := 0, status := .done, delivered := true }
 def TSt.setTask (s : TSt) (t : Nat) (x : Task) : TSt := { s with tasks := s.tasks.set t x }
 
 /-- `asyncio.create_task(coro)`: a new task whose first step is scheduled -/
@@ -83,14 +84,19 @@ def TSt.cancelTask (s : TSt) (t : Nat) : TSt :=
     if x.cancelReq then s else
     { (s.setTask t { x with cancelReq := true }) with ready := s.ready ++ [.resumeCancel t] }
 
+/-- `self.task = create_task(coro)` for the head of the queue -/
+def startNext (s : TSt) (c : Nat) (rest : List (Nat × Nat)) : TSt :=
+  { s with queue := rest, tasks := s.tasks ++ [{ coro := c }], ready := s.ready ++ [.step s.tasks.length],
+           cur := some s.tasks.length }
+
+/-- `if done_task is self.task: self.task = None` -/
+def clearCur (s : TSt) (done : Option Nat) : TSt := if done = s.cur then { s with cur := none } else s
+
 /-- `SequentialTaskManagerBase._task_done(done_task)` (`done = none` is the call from `_task_start`) -/
 def seqTaskDone (s : TSt) (done : Option Nat) : TSt :=
-  let s := if done = s.cur then { s with cur := none } else s
-  match s.queue with
-  | [] => s
-  | (c, _) :: rest =>
-    let (s', t) := { s with queue := rest }.createTask c
-    { s' with cur := some t }
+  match (clearCur s done).queue with
+  | [] => clearCur s done
+  | (c, _) :: rest => startNext (clearCur s done) c rest
 
 /-- `_task_start` -/
 def seqTaskStart (s : TSt) : TSt :=
@@ -195,13 +201,16 @@ deriving Repr, Inhabited
 
 def DRAIN_FUEL : Nat := 10000
 
+/-- the harness operation itself -/
+def applyOp (s : TSt) : TOp → TSt
+  | .submit c k => submit s c k
+  | .complete t fail last =>
+    if (s.task t).status = .suspended ∧ !(s.task t).cancelReq then
+      { s with ready := s.ready ++ [Ready.resume t fail last] }
+    else s
+  | .cancel t => s.cancelTask t
+
 /-- one harness operation followed by running the loop until it is idle -/
-def tstep (s : TSt) (op : TOp) : TSt :=
-  let s := match op with
-    | .submit c k => submit s c k
-    | .complete t fail last =>
-      if (s.task t).status = .suspended ∧ !(s.task t).cancelReq then { s with ready := s.ready ++ [.resume t fail last] } else s
-    | .cancel t => s.cancelTask t
-  drain DRAIN_FUEL s
+def tstep (s : TSt) (op : TOp) : TSt := drain DRAIN_FUEL (applyOp s op)
 
 end Ea
